@@ -95,14 +95,14 @@ def cmd_run(names, tier="quick", all_checks=False):
         prop = meta["property"]
         tmp, w = scratch()
         try:
+            if meta.get("obsolete"):
+                results.append(dict(name=n, property=prop, status="OBSOLETE", detail=meta["obsolete"]))
+                print("%-10s OBSOLETE (%s)" % (n, meta["obsolete"][:120]))
+                continue
             a = apply(w, os.path.join(d, "patch.diff"))
             if a.returncode != 0:
                 results.append(dict(name=n, status="PATCH-DOES-NOT-APPLY", detail=a.stderr[:200]))
                 print(n, "PATCH-DOES-NOT-APPLY")
-                continue
-            if meta.get("obsolete"):
-                results.append(dict(name=n, property=prop, status="OBSOLETE", detail=meta["obsolete"]))
-                print("%-10s OBSOLETE (%s)" % (n, meta["obsolete"][:120]))
                 continue
             drc, _ = demo(w, os.path.join(d, "demo.py"))
             if drc != 1:
